@@ -54,6 +54,10 @@ struct Case {
     vectored: bool,
     /// outbound message i is handed to the sender before poll number send_at[i] (sorted)
     send_at: Vec<u8>,
+    /// the socket is a tokio-style stream (tokio::io traits, no native vectored write) reached
+    /// through hickory's `iocompat::AsyncIoTokioAsStd` adapter, as every tokio transport is
+    #[serde(default)]
+    via_tokio: bool,
 }
 
 fn body(len: u16, seed: u8) -> Vec<u8> {
@@ -214,6 +218,63 @@ impl AsyncWrite for ScriptTcp {
     }
 }
 
+/// the scripted socket seen through tokio's I/O traits (defaults for vectored writes)
+struct TokioSock(ScriptTcp);
+
+impl tokio::io::AsyncRead for TokioSock {
+    fn poll_read(mut self: Pin<&mut Self>, cx: &mut Context<'_>, buf: &mut tokio::io::ReadBuf<'_>) -> Poll<io::Result<()>> {
+        let dst = buf.initialize_unfilled();
+        match Pin::new(&mut self.0).poll_read(cx, dst) {
+            Poll::Ready(Ok(n)) => {
+                buf.advance(n);
+                Poll::Ready(Ok(()))
+            }
+            Poll::Ready(Err(e)) => Poll::Ready(Err(e)),
+            Poll::Pending => Poll::Pending,
+        }
+    }
+}
+
+impl tokio::io::AsyncWrite for TokioSock {
+    fn poll_write(mut self: Pin<&mut Self>, cx: &mut Context<'_>, buf: &[u8]) -> Poll<io::Result<usize>> {
+        Pin::new(&mut self.0).poll_write(cx, buf)
+    }
+    fn poll_flush(mut self: Pin<&mut Self>, cx: &mut Context<'_>) -> Poll<io::Result<()>> {
+        Pin::new(&mut self.0).poll_flush(cx)
+    }
+    fn poll_shutdown(mut self: Pin<&mut Self>, cx: &mut Context<'_>) -> Poll<io::Result<()>> {
+        Pin::new(&mut self.0).poll_close(cx)
+    }
+}
+
+/// hickory's adapter around it, as a `DnsTcpStream`
+struct ViaTokio(hickory_net::runtime::iocompat::AsyncIoTokioAsStd<TokioSock>);
+
+impl DnsTcpStream for ViaTokio {
+    type Time = SimTime;
+}
+
+impl AsyncRead for ViaTokio {
+    fn poll_read(mut self: Pin<&mut Self>, cx: &mut Context<'_>, buf: &mut [u8]) -> Poll<io::Result<usize>> {
+        Pin::new(&mut self.0).poll_read(cx, buf)
+    }
+}
+
+impl AsyncWrite for ViaTokio {
+    fn poll_write(mut self: Pin<&mut Self>, cx: &mut Context<'_>, buf: &[u8]) -> Poll<io::Result<usize>> {
+        Pin::new(&mut self.0).poll_write(cx, buf)
+    }
+    fn poll_write_vectored(mut self: Pin<&mut Self>, cx: &mut Context<'_>, bufs: &[IoSlice<'_>]) -> Poll<io::Result<usize>> {
+        Pin::new(&mut self.0).poll_write_vectored(cx, bufs)
+    }
+    fn poll_flush(mut self: Pin<&mut Self>, cx: &mut Context<'_>) -> Poll<io::Result<()>> {
+        Pin::new(&mut self.0).poll_flush(cx)
+    }
+    fn poll_close(mut self: Pin<&mut Self>, cx: &mut Context<'_>) -> Poll<io::Result<()>> {
+        Pin::new(&mut self.0).poll_close(cx)
+    }
+}
+
 struct CountWaker(AtomicU64);
 
 impl Wake for CountWaker {
@@ -296,7 +357,15 @@ fn run_case(c: &Case, rec: &mut Rec) -> CaseResult {
         write_limit: out_frames.iter().map(|f| f.len()).sum::<usize>(),
         overflow: false,
     }));
-    let (mut stream, mut handle) = TcpStream::from_stream(ScriptTcp(sock.clone()), peer);
+    type Framed = Pin<Box<dyn Stream<Item = io::Result<SerialMessage>>>>;
+    let (mut stream, mut handle): (Framed, _) = if c.via_tokio {
+        rec.class("socket:tokio-traits-through-iocompat-adapter");
+        let (s, h) = TcpStream::from_stream(ViaTokio(hickory_net::runtime::iocompat::AsyncIoTokioAsStd(TokioSock(ScriptTcp(sock.clone())))), peer);
+        (Box::pin(s), h)
+    } else {
+        let (s, h) = TcpStream::from_stream(ScriptTcp(sock.clone()), peer);
+        (Box::pin(s), h)
+    };
     let wk = Arc::new(CountWaker(AtomicU64::new(0)));
     let waker = Waker::from(wk.clone());
     let mut cx = Context::from_waker(&waker);
@@ -325,7 +394,7 @@ fn run_case(c: &Case, rec: &mut Rec) -> CaseResult {
         if polls > max_polls {
             vfail!("framing-livelock", "stream still making no progress after {max_polls} polls");
         }
-        match Pin::new(&mut stream).poll_next(&mut cx) {
+        match stream.as_mut().poll_next(&mut cx) {
             Poll::Ready(Some(Ok(m))) => {
                 vensure!(m.addr() == peer, "framing-wrong-peer", "message attributed to {}", m.addr());
                 got.push(m.into_parts().0);
@@ -529,8 +598,9 @@ fn case() -> impl Strategy<Value = Case> {
         chunk_script(),
         any::<bool>(),
         vec(0u8..12, 3),
+        prop::bool::weighted(0.35),
     )
-        .prop_map(|(inbound, read_chunks, close, outbound, write_accepts, vectored, send_at)| Case {
+        .prop_map(|(inbound, read_chunks, close, outbound, write_accepts, vectored, send_at, via_tokio)| Case {
             inbound,
             read_chunks,
             close,
@@ -538,6 +608,7 @@ fn case() -> impl Strategy<Value = Case> {
             write_accepts,
             vectored,
             send_at,
+            via_tokio,
         })
 }
 
@@ -810,10 +881,11 @@ pub fn check() -> Option<Check> {
                             write_accepts: vec![],
                             vectored: true,
                             send_at: vec![],
+                            via_tokio: false,
                         });
                     }
                     // outbound direction (native and default vectored behaviour)
-                    for vectored in [true, false] {
+                    for (vectored, via_tokio) in [(true, false), (false, false), (false, true)] {
                         cases.push(Case {
                             inbound: vec![],
                             read_chunks: vec![],
@@ -822,6 +894,7 @@ pub fn check() -> Option<Check> {
                             write_accepts: comp.clone(),
                             vectored,
                             send_at: vec![0; msgs.len()],
+                            via_tokio,
                         });
                     }
                 }
